@@ -105,7 +105,7 @@ func init() {
 		addVariants(variant{Prop: p, Name: "benign-second-field-of-an-anchor-type-" + p, File: lx,
 			Old:    "\tleadingComments  []string // leading comments before the token\n",
 			New:    "\tleadingComments  []string // leading comments before the token\n\tFileName         string   // name of the source, for messages\n\tNotes            []string // remarks collected by plugins\n",
-			More:   []edit{{File: sm, Old: "\tnames     []string\n", New: "\tnames     []string\n\tsources   []string\n"}},
+			More:   []edit{{File: sm, Old: "\tnames     []string\n", New: "\tnames     []string\n\tsources   []string\n\tsourceIdx map[string]int\n"}},
 			Benign: true})
 	}
 }
